@@ -56,6 +56,9 @@ func allTags(c *Contract) []string {
 	if c.Delegates != nil {
 		add(c.Delegates.Tags)
 	}
+	for _, nr := range c.NoReads {
+		add(nr.Tags)
+	}
 	for _, cl := range c.Requires {
 		add(cl.Tags)
 	}
